@@ -331,7 +331,8 @@ func c02ResDesc(v c02Value, i, seed int) *mcp.Resource {
 func c02Register(spec *c02Spec,
 	regTool func(*mcp.Tool, func(context.Context, *mcp.CallToolRequest) (*mcp.CallToolResult, error)),
 	regPrompt func(*mcp.Prompt, func(context.Context, *mcp.GetPromptRequest) (*mcp.GetPromptResult, error)),
-	regRes func(*mcp.Resource, func(context.Context, *mcp.ReadResourceRequest) ([]mcp.ResourceContents, error))) {
+	regRes func(*mcp.Resource, func(context.Context, *mcp.ReadResourceRequest) ([]mcp.ResourceContents, error)),
+	regRes1 func(*mcp.Resource, func(context.Context, *mcp.ReadResourceRequest) (mcp.ResourceContents, error))) {
 	index := func(s interface{}) int {
 		switch t := s.(type) {
 		case string:
@@ -372,7 +373,22 @@ func c02Register(spec *c02Spec,
 		i, v := i, v
 		switch v.Fam {
 		case "resource", "reserr":
-			regRes(&mcp.Resource{Name: fmt.Sprintf("v%d", i), URI: c02ResURI(i)}, func(ctx context.Context, req *mcp.ReadResourceRequest) ([]mcp.ResourceContents, error) {
+			// the descriptor declares a MIME type of its own: what the handler returns (also an empty type) is what the caller gets
+			desc := &mcp.Resource{Name: fmt.Sprintf("v%d", i), URI: c02ResURI(i), MimeType: "text/x-descriptor"}
+			if v.K2 == "-" && i%2 == 0 {
+				// a single-content handler (RegisterResource)
+				regRes1(desc, func(ctx context.Context, req *mcp.ReadResourceRequest) (mcp.ResourceContents, error) {
+					switch b := c02Build(v, i, spec.Seed).(type) {
+					case []mcp.ResourceContents:
+						return b[0], nil
+					case error:
+						return nil, b
+					}
+					return nil, fmt.Errorf("not a resource value")
+				})
+				continue
+			}
+			regRes(desc, func(ctx context.Context, req *mcp.ReadResourceRequest) ([]mcp.ResourceContents, error) {
 				switch b := c02Build(v, i, spec.Seed).(type) {
 				case []mcp.ResourceContents:
 					return b, nil
@@ -412,6 +428,9 @@ func c02ServerMain(args []string) int {
 		},
 		func(r *mcp.Resource, h func(context.Context, *mcp.ReadResourceRequest) ([]mcp.ResourceContents, error)) {
 			srv.RegisterResources(r, h)
+		},
+		func(r *mcp.Resource, h func(context.Context, *mcp.ReadResourceRequest) (mcp.ResourceContents, error)) {
+			srv.RegisterResource(r, h)
 		})
 	if err := srv.Start(); err != nil {
 		return 1
@@ -438,6 +457,9 @@ func c02Run(spec *c02Spec) (outs []c02Out, broken string) {
 			},
 			func(r *mcp.Resource, h func(context.Context, *mcp.ReadResourceRequest) ([]mcp.ResourceContents, error)) {
 				srv.RegisterResources(r, h)
+			},
+			func(r *mcp.Resource, h func(context.Context, *mcp.ReadResourceRequest) (mcp.ResourceContents, error)) {
+				srv.RegisterResource(r, h)
 			})
 		ts := httptest.NewServer(srv.Handler())
 		c, err := mcp.NewClient(ts.URL+"/mcp", info, mcp.WithClientLogger(silentLogger{}), mcp.WithClientGetSSEEnabled(false))
@@ -457,6 +479,9 @@ func c02Run(spec *c02Spec) (outs []c02Out, broken string) {
 			},
 			func(r *mcp.Resource, h func(context.Context, *mcp.ReadResourceRequest) ([]mcp.ResourceContents, error)) {
 				srv.RegisterResources(r, h)
+			},
+			func(r *mcp.Resource, h func(context.Context, *mcp.ReadResourceRequest) (mcp.ResourceContents, error)) {
+				srv.RegisterResource(r, h)
 			})
 		ts := httptest.NewServer(srv)
 		c, err := mcp.NewSSEClient(ts.URL+"/sse", info, mcp.WithClientLogger(silentLogger{}))
